@@ -123,7 +123,9 @@ def run_real(scen, workdir, rng=None):
     obs = {'outcome': 'ok', 'log': [], 'error_text': None}
     pending = []
     passes = [TablePass(p['name'], p, texts) for p in scen['passes']]
-    keyidx = {repr(p): i for i, p in enumerate(passes)}
+    keyidx = {}
+    for i, p in enumerate(passes):
+        keyidx.setdefault(repr(p), i)        # as the driver sees them: by repr
     logger = logging.getLogger()
     saved_level = logger.level
     records = []
@@ -168,6 +170,21 @@ def run_real(scen, workdir, rng=None):
                 obs['marked'].append(('P', keyidx.get(repr(pass_), -1), len(obs['log']), sum(os.path.getsize(f) for f in files)))
                 return orp(pass_)
             tm.run_pass = rp
+            # the wall clock is stepped (NTP, suspend) right after every pass starts: +100 s, then back; a monotonic clock
+            # does not notice, a wall-clock based pass timer does
+            import time as _time
+            real_wall = _time.time
+            step = [0.0, 100.0]
+            ostart = tm.pass_statistic.start
+
+            def start(pass_):
+                r = ostart(pass_)
+                step[0] += step[1]
+                step[1] = -step[1]
+                return r
+            tm.pass_statistic.start = start
+            _time.time = lambda: real_wall() + step[0]
+            t_begin = _time.monotonic()
             import signal
             signal.signal(signal.SIGALRM, _on_alarm)
             signal.setitimer(signal.ITIMER_REAL, scen.get('budget_s', 20))
@@ -185,6 +202,8 @@ def run_real(scen, workdir, rng=None):
                 obs['error_text'] = str(e)[:200]
             finally:
                 signal.setitimer(signal.ITIMER_REAL, 0)
+                _time.time = real_wall
+                obs['elapsed'] = _time.monotonic() - t_begin
             resolve()
             st = tm.pass_statistic.stats
             obs['stats'] = {keyidx[k]: (v.worked, v.failed, v.totally_executed) for k, v in st.items() if k in keyidx}
@@ -223,6 +242,16 @@ def fault_tok(v):
     return str(v)
 
 
+def pass_keys(scen):
+    """key of pass i = index of the first pass with the same repr (name and max-transforms): the replay table and the
+    statistics are keyed on repr(pass), so two entries that name the same pass with the same limit share both"""
+    seen = {}
+    out = []
+    for i, p in enumerate(scen['passes']):
+        out.append(seen.setdefault((p['name'], p.get('maxT')), i))
+    return out
+
+
 def model_line(scen, obs, joint_key):
     """the protocol line for the Lean driver; the schedule is the one the shim played, the tie order the one observed"""
     cfg = scen['cfg']
@@ -239,12 +268,13 @@ def model_line(scen, obs, joint_key):
         str(c.get('GIVEUP_CONSTANT', 50000)), str(c.get('MAX_TIMEOUTS', 20)), str(c.get('MAX_CRASH_DIRS', 10)),
         str(c.get('MAX_EXTRA_DIRS', 25000)), str(scen.get('growth', 3)), str(cfg.get('bug0', 0)), '0', b(scen.get('releaseBeforeBail', False))])
     ps = []
+    keys = pass_keys(scen)
     for i, p in enumerate(scen['passes']):
         new = ','.join(f'{k}:{v}' for k, v in p['new'].items()) or '-'
         adv = ','.join(f"{k.replace('.', ':')}:{v}" for k, v in p['adv'].items()) or '-'
         aos = ','.join(f"{k.replace('.', ':')}:{v}" for k, v in p['aos'].items()) or '-'
         tr = ','.join(f"{k.replace('.', ':')}:{v[0]}:{v[1]}:{v[2]}" for k, v in p['tr'].items()) or '-'
-        ps.append(f"key={i};maxT={on(p.get('maxT'))};new={new};adv={adv};aos={aos};tr={tr}")
+        ps.append(f"key={keys[i]};maxT={on(p.get('maxT'))};new={new};adv={adv};aos={aos};tr={tr}")
     groups = ';'.join(f"{k}={','.join(map(str, scen['groups'].get(k, []))) or '-'}" for k in ('first', 'main', 'last'))
     test = ';'.join(f"{k or '-'}:{v}" for k, v in scen['test'].items()) or '-'
     faults = ';'.join(f'{k}:{fault_tok(v)}' for k, v in scen.get('faults', {}).items()) or '-'
@@ -255,9 +285,9 @@ def model_line(scen, obs, joint_key):
 
 
 def render_obs(scen, obs):
-    n = len(scen['passes'])
-    stats = ','.join(f"{i}:{'/'.join(map(str, obs['stats'].get(i, (0, 0, 0))))}" for i in range(n)) or '-'
-    tot = [sum(obs['stats'].get(i, (0, 0, 0))[j] for i in range(n)) for j in range(3)]
+    ks = sorted(set(pass_keys(scen)), key=pass_keys(scen).index)
+    stats = ','.join(f"{i}:{'/'.join(map(str, obs['stats'].get(i, (0, 0, 0))))}" for i in ks) or '-'
+    tot = [sum(obs['stats'].get(i, (0, 0, 0))[j] for i in ks) for j in range(3)]
     return (f"{obs['outcome']} disk={','.join(map(str, obs['disk'])) or '-'} worked={tot[0]} failed={tot[1]} executed={tot[2]} "
             f"bug={obs['bug']} extra={obs['extra']} stats={stats} log={','.join(obs['log']) or '-'}")
 
